@@ -411,3 +411,42 @@ def conversions_special_floats(c):
     off_axis, off_origin = cyl[0] > 0, sph[0] > 0
     ok = ((dang(sph[2], sph_q[2]) < 1e-12) & (dang(cyl[1], cyl_q[1]) < 1e-12) | ~off_axis) & ((np.abs(sph[1] - sph_q[1]) < 1e-12) | ~off_origin)
     c.ensures("signed-zero-spelling-irrelevant", bool(ok.all()), detail=first_bad(ok))
+
+
+@contract("C19", "conversions_near_axes", [M + "transform_cartesian_to_spherical", M + "transform_spherical_to_cartesian",
+                                           M + "transform_cartesian_to_cylindrical", M + "transform_cylindrical_to_spherical"], native_only=True,
+          bounded="native runs: 600 points per run within 1e-3 ... 1e-9 rad of the polar axis or of the equatorial plane, at length scales "
+                  "1e-6 ... 1e8 (floating-point conditioning near coordinate singularities, which mathematical reals cannot show)")
+def conversions_near_axes(c):
+    """in floating point too, points close to (not on) the polar axis or the equatorial plane survive Cartesian -> spherical ->
+    Cartesian component by component, and Cartesian -> cylindrical -> spherical gives the polar angle of Cartesian -> spherical"""
+    import holopy.core.math as hm
+    rng = np.random.RandomState(c.int("seed", 0, 10 ** 6))
+    n = 600
+    scale = 10.0 ** rng.uniform(-6, 8, size=n)
+    eps = 10.0 ** rng.uniform(-9, -3, size=n)
+    az = rng.uniform(0.05, 2 * np.pi - 0.05, size=n)
+    az = np.where(np.abs(np.cos(az)) < 0.05, az + 0.1, az)
+    az = np.where(np.abs(np.sin(az)) < 0.05, az + 0.1, az)          # keep x and y both away from zero (their relative error is judged)
+    near_pole = rng.rand(n) < 0.6
+    sign = np.where(rng.rand(n) < 0.5, 1.0, -1.0)
+    rho = np.where(near_pole, eps, 1.0) * scale
+    z = np.where(near_pole, 1.0, eps) * scale * sign
+    p = np.array([rho * np.cos(az), rho * np.sin(az), z])
+    sph = hm.transform_cartesian_to_spherical(p)
+    back = hm.transform_spherical_to_cartesian(sph)
+    # a polar angle next to pi or pi/2 is only representable to ulp(pi) = 4.4e-16 absolutely, i.e. to 4.4e-16/eps relative to its
+    # distance from the singular value (next to 0 floats are dense): that much is inherent to the representation, not to the code
+    north = near_pole & (sign > 0)
+    tol = 1e-9 + np.where(north, 0.0, 4e-15 / eps)
+    rel = np.abs(back - p) / np.abs(p) / tol
+    worst = np.unravel_index(np.argmax(rel), rel.shape)
+    c.ensures("round-trip-componentwise", bool(rel.max() < 1),
+              detail="point %r -> spherical %r -> %r (relative error %.3g in component %d, tolerance %.3g)"
+                     % (p[:, worst[1]].tolist(), sph[:, worst[1]].tolist(), back[:, worst[1]].tolist(), rel.max() * tol[worst[1]], worst[0], tol[worst[1]]))
+    sph2 = hm.transform_cylindrical_to_spherical(hm.transform_cartesian_to_cylindrical(p))
+    dth = np.abs(sph2[1] - sph[1]) / np.where(near_pole, eps, 1.0) / tol
+    w = int(np.argmax(dth))
+    c.ensures("composition-polar-angle", bool(dth.max() < 1),
+              detail="point %r: theta %r directly, %r through cylindrical coordinates" % (p[:, w].tolist(), float(sph[1, w]), float(sph2[1, w])))
+    c.ensures("radius-kept", bool(np.all(np.abs(sph[0] - np.sqrt((p ** 2).sum(axis=0))) <= 1e-12 * sph[0])))
